@@ -9,7 +9,7 @@ CHECKS = {
     "C10": dict(
         engine="lockstep",
         category="exploration",
-        text="Seeded search over interleavings of 2-4 real submitter processes (single-stepped at Python-line, sleep, write-chunk and body points, simulated clock, stall faults) contending for one job through pydra's real lock/check/run/save protocol; oracle: body executed exactly once, every submitter gets the expected outputs, all terminate. Sampling, not enumeration.",
+        text="Seeded search over interleavings of 2-4 real submitter processes (single-stepped at Python-line, sleep, write-chunk and body points, simulated clock, stall faults) contending for one job through pydra's real lock/check/run/save protocol - plain/slow task, pre-existing result, pre-existing errored result, two-node workflow - and of one asynchronous submitter (simulated pool, PydraFileLock) racing sequential ones on the same workflow; oracle: every body (incl. the workflow's own constructor) executed exactly once, every submitter gets the expected outputs, all terminate. Sampling, not enumeration.",
         note="Trusts filelock's O_EXCL protocol as a dependency (but runs it for real); pre-emption granularity is a Python line of job.py/result.py (and filelock in fine runs); one host, tmpfs.",
         technique="deterministic simulation: lockstep-scheduled real processes, seeded schedule search, stall faults",
         ref="8/C10",
@@ -19,7 +19,7 @@ CHECKS = {
 SIMLOOP_NOTE = "Runs the real Submitter/NodeExecution/worker/Job code; ProcessPoolExecutor and the selector loop are replaced by SimPool/SimLoop (stubs listed in evidence). Sampling of schedules, not enumeration; PYTHONHASHSEED pinned to 0 (pydra's own set iteration makes the controller's line sequence hash-seed dependent)."
 CHECKS.update({
     "C12": dict(engine="lockstep", category="fault_enumeration",
-        text="For each scenario (plain, slow body, over an errored result, rerun over an existing result, two-node workflow, failing task, foreign-host marker) the ordered list of pre-emption points of the executing process is recorded by a dry run and the process is SIGKILLed at every (quick: strided) index; every (quick: strided) truncation length of _result.pklz is tried; a fresh submission under the simulated clock must terminate within 120 simulated s with exactly the expected outputs, and may skip the body only if a complete successful result was on disk. Thorough adds fine (filelock-line) points, a second crash during recovery and a racing second submitter.",
+        text="For each scenario (plain, slow body, over an errored result, rerun over an existing result, two-node workflow, failing task, foreign-host marker) the ordered list of pre-emption points of the executing process is recorded by a dry run and the process is SIGKILLed at every (quick: strided) index; every (quick: strided) truncation length of _result.pklz is tried; a fresh submission under the simulated clock must terminate within 120 simulated s with exactly the expected outputs, and may skip the body only if a complete successful result was on disk. Also sampled: a pool worker of an asynchronous workflow submission SIGKILLed at a seeded step, then a resubmission. Thorough adds fine (filelock-line) points, a second crash during recovery and a racing second submitter.",
         note="Crash = SIGKILL (page cache survives; power loss not modelled). Points are Python lines of job.py/result.py (+filelock), sleeps, write chunks, body points; a line doing several file operations is atomic. Real filelock stale-marker recovery against really dead PIDs.",
         technique="deterministic simulation: crash-point enumeration with SIGKILL of lockstep-stepped real processes, torn writes, simulated clock", ref="8/C12"),
     "C14": dict(engine="simloop", category="exploration",
@@ -30,7 +30,7 @@ CHECKS.update({
         text="Generated workflows run under the sequential loop (reference) and on the simulated pool under seeded schedules; from the body enter/exit event log: no body starts before every producer of a token it received has exited; every job identity of the reference is executed exactly once (incl. duplicate-identity nodes).",
         note=SIMLOOP_NOTE, technique="deterministic simulation: virtual-time asyncio loop + simulated process pool, event-order oracle over seeded schedules", ref="8/C15"),
     "C16": dict(engine="simloop", category="exploration",
-        text="Wide workflows (split and parallel nodes, 2-12 jobs) with max_concurrent=k for k in 1..jobs on a pool larger than the job count, schedules biased to keep workers inside their bodies; invariant at every event: number of bodies between enter and exit <= k.",
+        text="Wide workflows (split and parallel nodes, 2-12 jobs) with max_concurrent=k for k in 1..jobs on a pool larger than the job count, schedules biased to keep workers inside their bodies; invariant at every event: number of bodies between enter and exit <= k, and number of jobs being run by pool processes <= k.",
         note=SIMLOOP_NOTE + " 'Executing' is read in its weakest sense (inside the task body).",
         technique="deterministic simulation: simulated pool + seeded schedules, concurrency invariant on the event log", ref="8/C16"),
     "C17": dict(engine="simloop", category="exploration",
@@ -38,7 +38,7 @@ CHECKS.update({
         note=SIMLOOP_NOTE + " Agreement with a reference semantics of the state algebra is not claimed (C03).",
         technique="deterministic simulation: differential runs of sequential loop vs seeded pool schedules", ref="8/C17"),
     "C18": dict(engine="simloop", category="exploration",
-        text="Bounded liveness: workflows with a cycle closed through node-input assignment (untyped and typed) under both loops, and acyclic workflows with one progress-removing fault (pool worker SIGKILLed, result file lost, stale lock of a dead local PID, stale lock of another host) must return or raise within deterministic budgets (pydra function calls, scheduler steps, 600 simulated s).",
+        text="Bounded liveness: workflows with a cycle closed through node-input assignment (untyped and typed) under both loops, and acyclic workflows with one progress-removing fault (pool worker SIGKILLed, result file lost, stale lock of a dead local PID, stale lock of another host), and acyclic workflows under the sequential loop with a max_concurrent limit, must return or raise within deterministic budgets (pydra function calls, scheduler steps, 600 simulated s).",
         note=SIMLOOP_NOTE + " Termination is judged by deterministic budgets, never a wall clock.",
         technique="deterministic simulation: virtual time + fault injection (kill, lost file, stale locks), bounded-liveness oracle", ref="8/C18"),
 })
